@@ -76,3 +76,20 @@ Example C08_scheduler_instance :
   filter (fun o => match o with TxSched.TW _ _ => true | _ => false end) (rev (TxSched.t_log (TxSched.trun_events evs))) =
     [TxSched.TW 1 0; TxSched.TW 2 1; TxSched.TW 3 2].
 Proof. vm_compute. repeat split. Qed.
+
+(* the bytes written: in event order; an incoming data frame is answered with the ACK for ITS number (C06), whatever the
+   host's own numbering state *)
+Theorem C08_writes_in_event_order : forall a b s,
+  snd (trun s (a ++ b)) = snd (trun s a) ++ snd (trun (fst (trun s a)) b) /\
+  fst (trun s (a ++ b)) = fst (trun (fst (trun s a)) b).
+Proof.
+  induction a as [|e a IH]; intros b s; [split; reflexivity|].
+  cbn [app trun]. destruct (tstep s e) as [s1 w1] eqn:E1.
+  destruct (IH b s1) as [IHw IHs].
+  destruct (trun s1 (a ++ b)) as [s2 w2] eqn:E2. destruct (trun s1 a) as [s3 w3] eqn:E3.
+  cbn [fst snd] in *. split; [rewrite IHw, app_assoc; reflexivity|exact IHs].
+Qed.
+Print Assumptions C08_writes_in_event_order.
+Theorem C08_incoming_data_is_acked_with_its_own_number : forall s q, tstep s (TDataIn q) = (s, [ack_bytes q]).
+Proof. reflexivity. Qed.
+Print Assumptions C08_incoming_data_is_acked_with_its_own_number.
